@@ -829,11 +829,9 @@ Proof.
       rewrite (block_fold k x A Hk Hwx Hexx HR HAk _ Hkne Hks mo MNil MNil (zero e)); try assumption; try reflexivity;
         [|apply (proj1 (zero_wt_all OR)); exact Hwfe].
       fold (keys (ments_env (fun q x0 => env_of e q x0) p m)).
-      rewrite (IH (mapp A (MCons k (VPtr (Some x)) MNil)) MNil); try assumption; try reflexivity.
-      * rewrite mapp_assoc. reflexivity.
-      * simpl. rewrite mapp_assoc. reflexivity.
-      * exact HA'.
-      * intros _. discriminate.
+      rewrite (IH (mapp A (MCons k (VPtr (Some x)) MNil)) MNil); try assumption; try exact HA';
+        try (intros _; discriminate); try reflexivity.
+      all: simpl; rewrite ?mapp_assoc; reflexivity.
     + destruct v0; simpl in Hdom; try discriminate.
       apply andb_true_iff in Hdom as [Hd1 Hdom]. apply andb_true_iff in Hd1 as [Hkk Hd1].
       apply str_eqb_eq in Hkk. subst k0.
@@ -846,15 +844,231 @@ Proof.
       rewrite (block_fold k x A Hk Hwx Hexx HR HAk _ Hkne Hks mo (MCons k (VPtr o) dr) dr
                  (match o with Some dx => dx | None => zero e end)); try assumption.
       * fold (keys (ments_env (fun q x0 => env_of e q x0) p m)).
-        rewrite (IH (mapp A (MCons k (VPtr (Some x)) MNil)) dr); try assumption.
-        -- rewrite mapp_assoc. reflexivity.
-        -- simpl. rewrite mapp_assoc. reflexivity.
-        -- exact HA'.
-        -- intros _. discriminate.
+        rewrite (IH (mapp A (MCons k (VPtr (Some x)) MNil)) dr); try assumption; try exact HA';
+          try (intros _; discriminate).
+        all: simpl; rewrite ?mapp_assoc; reflexivity.
       * simpl. rewrite str_eqb_refl. reflexivity.
       * simpl. rewrite str_eqb_refl. destruct o; reflexivity.
 Qed.
 
 End MapFold.
+
+(* ---- helpers for the induction ---- *)
+Lemma keep_case t E p o v :
+  wf_ty t = true -> is_ptr t = false -> wt_opt t o = true -> (o = None -> ptr_ok t = true) ->
+  R p E = [] -> o = Some v -> loadp t E p o = Ok (Some v).
+Proof. intros Hwf Hp Hwo Hn HR ->. apply loadp_keep; assumption. Qed.
+
+Lemma sum_ge p ev : (forall k, In k (keys ev) -> has_prefix (p ++ [US]) k = true) ->
+  (length ev <= fold_right (fun (kv : str * str) acc => if has_prefix (p ++ [US]) (fst kv) then (length (fst kv) + acc)%nat else acc) O ev)%nat.
+Proof.
+  induction ev as [|[k v] ev IH]; simpl; intros H; [lia|].
+  rewrite (H k (or_introl eq_refl)). specialize (IH (fun k' Hk' => H k' (or_intror Hk'))).
+  assert (1 <= length k)%nat.
+  { pose proof (H k (or_introl eq_refl)) as Hk. apply has_prefix_spec in Hk as [s Hs]. subst k.
+    rewrite !app_length. simpl. lia. }
+  lia.
+Qed.
+
+Lemma elems_len fs q : forall l i,
+  vall (fun vs => expressible_fields OR fs vs && has_vars_fields fs vs) l = true ->
+  (vlen l <= length (elems_env (fun q vs => env_of_fields fs q vs) q i l))%nat.
+Proof.
+  induction l as [|v l IH]; intros i H; simpl; [lia|].
+  destruct v; simpl in H; try discriminate. apply andb_true_iff in H as [H1 H2]. apply andb_true_iff in H1 as [_ Hv].
+  rewrite app_length. specialize (IH (i + 1) H2).
+  pose proof (proj2 (has_vars_all OR) fs (sub q (dec i)) vs Hv) as Hne.
+  destruct (env_of_fields fs (sub q (dec i)) vs); [contradiction|]. simpl. lia.
+Qed.
+
+Lemma fuel_enough fs E p l :
+  R p E = elems_env (fun q vs => env_of_fields fs q vs) p 0 l ->
+  vall (fun vs => expressible_fields OR fs vs && has_vars_fields fs vs) l = true ->
+  (vlen l < loop_fuel E p)%nat.
+Proof.
+  intros HR Hv. rewrite <- loop_fuel_R. unfold loop_fuel. rewrite HR.
+  pose proof (elems_len fs p l 0 Hv) as H1.
+  pose proof (sum_ge p (elems_env (fun q vs => env_of_fields fs q vs) p 0 l)) as H2.
+  assert (H3 : forall k, In k (keys (elems_env (fun q vs => env_of_fields fs q vs) p 0 l)) -> has_prefix (p ++ [US]) k = true).
+  { intros k Hk. destruct (elems_keys OR fs (proj2 (keys_all OR) fs) p l 0 k Hk) as [j [_ Hu]].
+    apply (under_sub_prefix _ _ _ Hu). }
+  specialize (H2 H3). lia.
+Qed.
+
+Lemma no_comma_decs l : forallb uint32 l = true -> forallb no_comma (map dec l) = true.
+Proof.
+  induction l as [|z l IH]; simpl; intros H; [reflexivity|]. apply andb_true_iff in H as [Hz Hl].
+  unfold uint32 in Hz. apply andb_true_iff in Hz as [Hz _]. apply Z.leb_le in Hz.
+  rewrite dec_no_comma, IH by assumption. reflexivity.
+Qed.
+
+Lemma no_comma_floats l :
+  forallb (fun f => ostr_eqb (fparse OR f) (Some f) && no_comma f && negb (is_nil f)) l = true ->
+  forallb no_comma l = true.
+Proof.
+  induction l as [|f l IH]; simpl; intros H; [reflexivity|]. apply andb_true_iff in H as [Hf Hl].
+  apply andb_true_iff in Hf as [Hf _]. apply andb_true_iff in Hf as [_ Hf]. rewrite Hf, IH by exact Hl. reflexivity.
+Qed.
+
+Lemma keys_ok_of_mall (h : str -> value -> bool) m :
+  (forall k x, h k x = true -> key_ok k = true) -> mall h m = true -> keys_ok m.
+Proof.
+  intros Hh. induction m as [|k v m IH]; simpl; intros H k' Hk'; [contradiction|].
+  destruct v; try discriminate. destruct o; [|discriminate]. apply andb_true_iff in H as [H1 H2].
+  destruct Hk' as [<-|Hk']; [apply (Hh _ _ H1)|apply IH; assumption].
+Qed.
+
+Ltac leaf_start :=
+  intros E p o v Hwf Hp Hwt Hwo Hex Hdom Hn HR; destruct v; simpl in Hwt; try discriminate; simpl in HR.
+
+Lemma main_all : (forall t, PM t /\ PMv t) /\ (forall fs, PMf fs).
+Proof.
+  apply ty_fields_ind.
+  - (* TBool *) split; [|apply PMv_of_PM; [reflexivity|]]; leaf_start;
+      apply lookup_single in HR; simpl; rewrite HR; destruct b; reflexivity.
+  - (* TInt *) split; [|apply PMv_of_PM; [reflexivity|]]; leaf_start;
+      apply lookup_single in HR; simpl; rewrite HR; simpl in Hex; rewrite parse_int32_print by exact Hex; reflexivity.
+  - (* TUint *) split; [|apply PMv_of_PM; [reflexivity|]]; leaf_start;
+      apply lookup_single in HR; simpl; rewrite HR; simpl in Hex; rewrite parse_uint32_dec by exact Hex; reflexivity.
+  - (* TFloat *) split; [|apply PMv_of_PM; [reflexivity|]]; leaf_start;
+      apply lookup_single in HR; simpl; rewrite HR; simpl in Hex; apply ostr_eqb_eq in Hex; rewrite Hex; reflexivity.
+  - (* TStr *) split; [|apply PMv_of_PM; [reflexivity|]]; leaf_start;
+      apply lookup_single in HR; simpl; rewrite HR; reflexivity.
+  - (* TCustom *) intros k. split; [|apply PMv_of_PM; [reflexivity|]]; leaf_start;
+      apply lookup_single in HR; simpl; rewrite HR; simpl in Hex; apply ostr_eqb_eq in Hex; rewrite Hex; reflexivity.
+  - (* TStrs *) split; [|apply PMv_of_PM; [reflexivity|]]; leaf_start.
+    all: destruct o0 as [l|]; simpl in HR.
+    all: try (apply keep_case; try assumption; unfold dominated in Hdom; destruct o as [d|]; [|discriminate];
+              destruct d; simpl in Hdom; try discriminate; destruct o; [discriminate|reflexivity]).
+    all: apply lookup_single in HR; simpl; rewrite HR; destruct l as [|a l]; [reflexivity|]; simpl in Hex;
+         apply andb_true_iff in Hex as [Hc Hne];
+         destruct (join_comma (a :: l)) eqn:Ej;
+         [exfalso; apply (join_nonempty (a :: l)); [discriminate|intros Hq; inversion Hq; subst; discriminate|exact Ej]|];
+         rewrite <- Ej, split_join; [reflexivity|discriminate|exact Hc].
+  - (* TUints *) split; [|apply PMv_of_PM; [reflexivity|]]; leaf_start.
+    all: destruct o0 as [l|]; simpl in HR.
+    all: try (apply keep_case; try assumption; unfold dominated in Hdom; destruct o as [d|]; [|discriminate];
+              destruct d; simpl in Hdom; try discriminate; destruct o; [discriminate|reflexivity]).
+    all: apply lookup_single in HR; simpl; rewrite HR; destruct l as [|a l]; [reflexivity|]; simpl in Hex;
+         destruct (join_comma (map dec (a :: l))) eqn:Ej;
+         [exfalso; apply (join_nonempty (map dec (a :: l))); [discriminate|intros Hq; inversion Hq as [Hq']; exact (dec_nonempty a Hq')|exact Ej]|];
+         rewrite <- Ej, split_join; [|discriminate|apply no_comma_decs; exact Hex];
+         rewrite sequence_parse_uint by exact Hex; reflexivity.
+  - (* TFloats *) split; [|apply PMv_of_PM; [reflexivity|]]; leaf_start.
+    all: destruct o0 as [l|]; simpl in HR.
+    all: try (apply keep_case; try assumption; unfold dominated in Hdom; destruct o as [d|]; [|discriminate];
+              destruct d; simpl in Hdom; try discriminate; destruct o; [discriminate|reflexivity]).
+    all: apply lookup_single in HR; simpl; rewrite HR; destruct l as [|a l]; [reflexivity|];
+         pose proof (no_comma_floats _ Hex) as Hc; pose proof (sequence_fparse _ Hex) as Hs;
+         simpl in Hex; apply andb_true_iff in Hex as [Ha _]; apply andb_true_iff in Ha as [_ Ha];
+         destruct (join_comma (a :: l)) eqn:Ej;
+         [exfalso; apply (join_nonempty (a :: l)); [discriminate|intros Hq; inversion Hq; subst; discriminate|exact Ej]|];
+         rewrite <- Ej, split_join; [|discriminate|exact Hc]; rewrite Hs; reflexivity.
+  - (* TStructs *) intros fs IH.
+    assert (H : PM (TStructs fs)).
+    { leaf_start. simpl in Hwf. apply andb_true_iff in Hwf as [Hwff Hnd].
+      destruct o0 as [l|]; simpl in HR.
+      2: { apply keep_case; try assumption; [simpl; rewrite Hwff, Hnd; reflexivity|].
+           unfold dominated in Hdom. destruct o as [d|]; [|discriminate].
+           destruct d; simpl in Hdom; try discriminate. destruct o; [discriminate|reflexivity]. }
+      destruct l as [|v0 l].
+      { apply lookup_single in HR. rewrite loadp_structs_eq, HR. reflexivity. }
+      assert (Hlk : lookup E p = None).
+      { apply lookup_below. intros k Hk. rewrite HR in Hk.
+        destruct (elems_keys OR fs (proj2 (keys_all OR) fs) p _ 0 k Hk) as [j [_ Hu]]. apply (under_sub_neq _ _ _ Hu). }
+      rewrite loadp_structs_eq, Hlk. unfold structs_body.
+      pose proof (BH_of_R OR fs E p _ HR) as Hbh.
+      pose proof (no_next_index fs E p _ HR) as Hend.
+      pose proof (fuel_enough fs E p _ HR Hex) as Hfuel.
+      unfold dominated in Hdom. destruct o as [d|].
+      - destruct d; simpl in Hwo; try discriminate. simpl in Hdom.
+        destruct (elems_main fs IH Hwff Hnd E p (VCons v0 l) (match o with Some dl => dl | None => VNil end) 0 (loop_fuel E p))
+          as [l1 [l2 [H1 [H2 H3]]]]; try assumption; try lia.
+        { destruct o; [exact Hwo|reflexivity]. }
+        rewrite H1. cbn [bind]. rewrite Z.add_0_l in H2. rewrite H2. cbn [bind].
+        destruct o as [dl|]; [rewrite H3; reflexivity|].
+        simpl in H1. inversion H1; subst l1. simpl in H3. subst l2. reflexivity.
+      - apply andb_true_iff in Hdom as [_ Hdom]. simpl in Hdom.
+        destruct (elems_main fs IH Hwff Hnd E p (VCons v0 l) VNil 0 (loop_fuel E p))
+          as [l1 [l2 [H1 [H2 H3]]]]; try assumption; try lia; try reflexivity.
+        simpl in H1. inversion H1; subst l1. simpl in H3. subst l2.
+        change (0 + Z.of_nat (vlen VNil)) with 0 in H2. rewrite H2. reflexivity. }
+    split; [exact H|apply PMv_of_PM; [reflexivity|exact H]].
+  - (* TStruct *) intros fs IH.
+    assert (H : PM (TStruct fs)).
+    { leaf_start. simpl in Hwf. apply andb_true_iff in Hwf as [Hwff Hnd].
+      destruct o as [d|]; [|specialize (Hn eq_refl); discriminate].
+      destruct d; simpl in Hwo; try discriminate. unfold dominated in Hdom. simpl in Hdom, Hex.
+      simpl. rewrite (IH E p vs0 vs); try assumption; [reflexivity|]. apply fenv_of_R; assumption. }
+    split; [exact H|apply PMv_of_PM; [reflexivity|exact H]].
+  - (* THook *) intros fs IH.
+    assert (H : PM (THook fs)).
+    { leaf_start. simpl in Hwf. apply andb_true_iff in Hwf as [Hwff Hnd].
+      destruct o0 as [vs|]; simpl in HR.
+      2: { apply keep_case; try assumption; [simpl; rewrite Hwff, Hnd; reflexivity|].
+           unfold dominated in Hdom. destruct o as [d|]; [|discriminate].
+           destruct d; simpl in Hdom; try discriminate. destruct o; [discriminate|reflexivity]. }
+      simpl in Hex. apply andb_true_iff in Hex as [Hex Hhv].
+      assert (Hlk : lookup E p = None).
+      { apply lookup_below. intros k Hk. rewrite HR in Hk.
+        destruct (proj2 (keys_all OR) fs p vs k Hk) as [N [_ Hu]]. apply (under_sub_neq _ _ _ Hu). }
+      assert (Hhk : has_key_with_prefix E (p ++ [US]) = true).
+      { apply (hkwp_of_block E p _ _ HR); [apply (proj2 (has_vars_all OR)); exact Hhv|].
+        intros k Hk. destruct (proj2 (keys_all OR) fs p vs k Hk) as [N [_ Hu]]. apply (under_sub_prefix _ _ _ Hu). }
+      destruct o as [d|]; [|specialize (Hn eq_refl); discriminate].
+      destruct d; simpl in Hwo; try discriminate. unfold dominated in Hdom. simpl in Hdom.
+      simpl. rewrite Hlk, Hhk.
+      rewrite (IH E p (match o with Some dvs => dvs | None => zeros fs end) vs); try assumption; [reflexivity| |apply fenv_of_R; assumption].
+      destruct o; [exact Hwo|apply (proj2 (zero_wt_all OR)); exact Hwff]. }
+    split; [exact H|apply PMv_of_PM; [reflexivity|exact H]].
+  - (* TMap *) intros e [_ IHe].
+    assert (H : PM (TMap e)).
+    { leaf_start. simpl in Hwf. apply andb_true_iff in Hwf as [Hnp Hwfe].
+      destruct o0 as [m|]; simpl in HR.
+      2: { apply keep_case; try assumption; [simpl; rewrite Hnp, Hwfe; reflexivity|].
+           unfold dominated in Hdom. destruct o as [d|]; [|discriminate].
+           destruct d; simpl in Hdom; try discriminate. destruct o; [discriminate|reflexivity]. }
+      destruct o as [d|]; [|specialize (Hn eq_refl); discriminate].
+      destruct d; simpl in Hwo; try discriminate. unfold dominated in Hdom.
+      simpl in Hex. apply andb_true_iff in Hex as [Hndk Hex].
+      destruct m as [|k0 v0 m].
+      { simpl in HR. apply keep_case; try assumption; [simpl; rewrite Hnp, Hwfe; reflexivity|].
+        simpl in Hdom. destruct o as [[|]|]; try discriminate. reflexivity. }
+      rewrite loadp_map_eq.
+      rewrite <- (fold_skip (map_step OR e E p) p E (fun acc k => map_step_skip OR e E p acc k)).
+      rewrite HR.
+      change (map fst (ments_env (fun q x => env_of e q x) p (MCons k0 v0 m))) with
+             (keys (ments_env (fun q x => env_of e q x) p (MCons k0 v0 m))).
+      rewrite (map_main e IHe Hwfe E p (MCons k0 v0 m) MNil (ments_of o) o); try assumption; try reflexivity.
+      - destruct o; [exact Hwo|reflexivity].
+      - apply nodup_str_NoDup. exact Hndk.
+      - apply MBH_of_R; [|apply nodup_str_NoDup; exact Hndk|exact HR].
+        apply (keys_ok_of_mall _ _ (fun k x Hh => proj1 (proj1 (andb_true_iff _ _)
+                 (proj1 (proj1 (andb_true_iff _ _) Hh)))) Hex).
+      - intros Hc. discriminate. }
+    split; [exact H|apply PMv_of_PM; [reflexivity|exact H]].
+  - (* TPtr *) intros t [IH _]. split.
+    + intros E p o v _ Hp. discriminate.
+    + intros E p x d v Hwf Hwt Hwd Hex Hdom HR. simpl in Hwf. apply andb_true_iff in Hwf as [Hok Hwf].
+      destruct v; simpl in Hwt; try discriminate. destruct d; simpl in Hwd; try discriminate.
+      destruct o as [y|]; simpl in HR.
+      * rewrite load_val_ptr. simpl in Hex, Hdom.
+        assert (Hwo' : wt_opt t o0 = true) by (destruct o0; [exact Hwd|reflexivity]).
+        assert (Hdom' : dominated OR t o0 y = true) by (unfold dominated; destruct o0; exact Hdom).
+        rewrite (IH E (sub p x) o0 y Hwf (ptr_ok_not_ptr t Hok) Hwt Hwo' Hex Hdom' (fun _ => Hok) HR). reflexivity.
+      * simpl in Hdom. destruct o0; [discriminate|].
+        apply load_val_keep; [simpl; rewrite Hok, Hwf; reflexivity|reflexivity|exact HR].
+  - (* TBad *) split; [intros E p o v Hwf; discriminate|intros E p x d v Hwf; discriminate].
+  - (* FNil *) intros E p dvs vs _ Hwv Hwd _ _ _. destruct vs, dvs; try discriminate. reflexivity.
+  - (* FCons *) intros tag t [_ IHt] fs IHf E p dvs vs Hwf Hwv Hwd Hex Hdom Hfe.
+    destruct vs as [|v vs]; [discriminate|]. destruct dvs as [|d dvs]; [discriminate|].
+    simpl in Hwf, Hwv, Hwd, Hex, Hdom. destruct Hfe as [HR Hfe].
+    apply andb_true_iff in Hwf as [Hwf Hwff]. apply andb_true_iff in Hwf as [_ Hwft].
+    apply andb_true_iff in Hwv as [Hwv1 Hwv2]. apply andb_true_iff in Hwd as [Hwd1 Hwd2].
+    apply andb_true_iff in Hex as [Hex1 Hex2]. apply andb_true_iff in Hdom as [Hd1 Hd2].
+    rewrite load_fields_cons_eq, (IHt E p (fname tag) d v) by assumption. cbn [bind].
+    rewrite (IHf E p dvs vs) by assumption. reflexivity.
+Qed.
+
 End Main.
 (* END *)
